@@ -272,6 +272,7 @@ func runSeq(p *DPlan, system string, keepLog bool, prefix string) seqResult {
 		// Barrier cannot bring the data back (the kernel marked the pages
 		// clean), so they are unconstrained until they are written again
 		lostOK := map[uint64]bool{}
+		lostLen := false
 		r := s.Run(func() {
 			var d disk.Disk
 			var err error
@@ -413,29 +414,8 @@ func runSeq(p *DPlan, system string, keepLog bool, prefix string) seqResult {
 					f := faultInOp()
 					if f != nil {
 						res.faultHit = true
-						if !pan && f.Errno == int(simunix.EINTR) {
-							// an interrupted fsync may be retried; the flush that
-							// finally succeeded covers the writes
-							lastBarrier = map[uint64]expBlock{}
-							for j := range cur {
-								lastBarrier[uint64(j)] = cur[j]
-								if lostOK[uint64(j)] {
-									lastBarrier[uint64(j)] = expBlock{}
-								}
-							}
-							sinceBarrier = map[uint64]bool{}
-						} else if !pan {
-							fail(prefix+".fault.silent", fmt.Sprintf("%s.fault.silent/fsync/%s", prefix, f.Kind), fmt.Sprintf("op %d: Barrier returned normally although its fsync failed (errno %d)", oi, f.Errno))
-							return
-						} else if f.Kind == "errno" && f.Errno != int(simunix.EINTR) {
-							for j := range sinceBarrier {
-								lostOK[j] = true
-							}
-						}
-					} else if pan {
-						fail(prefix+".refusal", "", fmt.Sprintf("op %d: Barrier panicked without a fault: %s", oi, msg))
-						return
-					} else {
+					}
+					completed := func() {
 						lastBarrier = map[uint64]expBlock{}
 						for j := range cur {
 							lastBarrier[uint64(j)] = cur[j]
@@ -444,6 +424,51 @@ func runSeq(p *DPlan, system string, keepLog bool, prefix string) seqResult {
 							}
 						}
 						sinceBarrier = map[uint64]bool{}
+					}
+					switch {
+					case pan && f == nil:
+						fail(prefix+".refusal", "", fmt.Sprintf("op %d: Barrier panicked without a fault: %s", oi, msg))
+						return
+					case pan:
+						// the failure surfaced. After EIO the kernel has dropped what
+						// was dirty: the loss is reported, those blocks are
+						// unconstrained until written again
+						if f.Kind == "errno" && f.Errno != int(simunix.EINTR) {
+							for j := range sinceBarrier {
+								lostOK[j] = true
+							}
+							lostLen = true // a pending change of the file's length is dropped with the data
+						}
+					default:
+						// Barrier returned normally -- with or without a failing
+						// fsync underneath (an implementation may recover: retry an
+						// interrupted fsync, re-write what a failed one dropped).
+						// What counts is the result: nothing written before this
+						// Barrier may still be volatile.
+						if isFile && !k.Real {
+							at := int64(-2)
+							for _, b := range k.VolatileBlocks(path, model.BlockSize) {
+								if b < 0 && lostLen {
+									continue
+								}
+								if b < 0 || !lostOK[uint64(b)] {
+									at = b
+									break
+								}
+							}
+							if at != -2 {
+								o, key := prefix+".barrier-not-durable", ""
+								what := "no fault was injected"
+								if f != nil {
+									o = prefix + ".fault.silent"
+									key = fmt.Sprintf("%s.fault.silent/fsync/%s", prefix, f.Kind)
+									what = fmt.Sprintf("its fsync failed (errno %d)", f.Errno)
+								}
+								fail(o, key, fmt.Sprintf("op %d: Barrier returned normally (%s), but the image's durable contents differ from its current contents in block %d (-1: the length): a power failure now would lose data written before the Barrier", oi, what, at))
+								return
+							}
+						}
+						completed()
 					}
 				case "write":
 					n := op.BufLen
